@@ -1385,3 +1385,10 @@ Definition table : list meth := [
     []
     []
 ].
+
+(* channel sends as found (before edbed14 / 947cb2a): plain sends *)
+Definition chan_sends : list (string * string * bool) := [
+  ("mediator.Service.handleKeylistUpdateResponse", "keylistUpdateCh", false);
+  ("messagepickup.Service.handleStatus", "statusCh", false);
+  ("messagepickup.Service.handleBatch", "batchCh", false)
+].
